@@ -10,14 +10,18 @@ mod vt;
 use serde_json::json;
 use std::io::Write;
 
-const EDGE_FIRST: [usize; 8] = [0, 1, 2, 3, 4, 5, 6, 8];
 /// OSC with a payload around the fixed-buffer limit: 1000..1100 payload bytes and 0..20 separators
 fn gen_big_osc(r: &mut rng::Rng, out: &mut Vec<u8>, k: usize) {
     out.extend_from_slice(b"\x1b]");
-    let payload = if EDGE_FIRST.contains(&(k % 9)) { r.range(1030, 1100) } else { r.range(1000, 1100) };
-    let seps = *r.pick(&[0usize, 1, 2, 5, 14, 15, 16, 16, 17, 18, 20]);
+    // even k: the byte at the limit (no separators); odd k: separator counts around the field limit, in a fixed cycle
+    let is_edge = k % 2 == 0;
+    let payload = if is_edge { r.range(1030, 1100) } else { r.range(1000, 1100) };
+    let seps = if is_edge { 0 } else { [16usize, 17, 20, 18, 15, 14, 5, 0, 1, 2, 16][(k / 2) % 11] };
     let mut sep_at: Vec<usize> = (0..seps).map(|_| r.below(payload + seps)).collect();
-    if r.chance(1, 3) {
+    if seps >= 16 && (k / 2) % 3 != 2 {
+        // every field boundary well inside the buffer: both limits are reached in the same string
+        sep_at = (0..seps).map(|i| 40 * i + r.below(30)).collect();
+    } else if r.chance(1, 3) {
         // separators crowded around the limit
         sep_at = (0..seps).map(|_| r.range(1015, 1035).min(payload + seps - 1)).collect();
     }
@@ -25,10 +29,7 @@ fn gen_big_osc(r: &mut rng::Rng, out: &mut Vec<u8>, k: usize) {
     // DEL, a separator, the first and the last printable
     const EDGES: [Option<(usize, u8)>; 9] = [Some((1024, 0x7f)), Some((1023, 0x7f)), Some((1024, b';')), Some((1025, 0x7f)), Some((1023, b';')),
         Some((1022, 0x7f)), Some((1025, b';')), None, Some((1024, 0x7e))];
-    let edge = EDGES[k % 9];
-    if edge.is_some() {
-        sep_at.clear();
-    }
+    let edge = if is_edge { EDGES[(k / 2) % 9] } else { None };
     for i in 0..(payload + seps) {
         if let Some((at, x)) = edge {
             if i == at {
@@ -67,7 +68,7 @@ fn main() {
             for s in 0..streams {
                 let mut input = gen::gen_stream(&mut r, target, gen::Flavor::SevenBit);
                 if s % 2 == 0 {
-                    gen_big_osc(&mut r, &mut input, ((seed % 100) * streams + s) as usize / 2);
+                    gen_big_osc(&mut r, &mut input, ((seed % 100) * streams + s) as usize / 2 + (seed / 100) as usize * 3);
                     // what follows an oversize string must be unaffected: an ordinary OSC, then more grammar
                     input.extend_from_slice(b"\x1b]0;title;x\x07ok\x1b]2;b\x1b\\");
                     let tail = gen::gen_stream(&mut r, 60, gen::Flavor::SevenBit);
